@@ -201,6 +201,13 @@ func SplitBraces(word *Word) bool {
 			acc.Parts = append(acc.Parts, elem.Parts...)
 		}
 	}
+	if !slices.ContainsFunc(top.Parts, func(part WordPart) bool {
+		_, ok := part.(*BraceExp)
+		return ok
+	}) {
+		// Only malformed brace expansions were found, like "a{b".
+		return false
+	}
 	*word = *top
 	return true
 }
